@@ -139,6 +139,7 @@ StableSortOps == {"stable_sort", "insertion_sort", "merge_sort"}
 SetOps == {"merge", "set_union", "set_intersection", "set_difference", "set_symmetric_difference"}
 NumericOps == {"iota", "accumulate", "reduce", "inner_product", "transform_reduce1", "transform_reduce2",
                "partial_sum", "adjacent_difference"}
+AdaptorOps == {"rit_cmp", "rit_nav", "iter_nav", "iter_nav_ra", "iter_nav_fwd"}
 AllOps == FindOps \cup QuantOps \cup SortOps \cup StableSortOps \cup SetOps \cup NumericOps \cup
     {"count", "count_if", "for_each", "for_each_n", "adjacent_find", "mismatch3", "mismatch4", "equal3", "equal4",
      "search", "search_n", "find_end", "find_first_of", "is_permutation3", "is_permutation4",
@@ -151,7 +152,15 @@ AllOps == FindOps \cup QuantOps \cup SortOps \cup StableSortOps \cup SetOps \cup
      "remove_copy", "remove_copy_if", "partition", "stable_partition", "partition_copy", "shift_left",
      "shift_right", "partial_sort", "nth_element",
      \* the same algorithms through the library's iterator adaptors / searcher
-     "search_s", "copy_back", "copy_rev"}
+     "search_s", "copy_back", "copy_rev"} \cup AdaptorOps
+
+\* [reverse.iterators] and [iterator.operations] themselves: a = one sequence per length, m encodes
+\* two positions (i * 8 + j) resp. a position and an offset (i * 16 + k + 8); results that would leave
+\* [first, last] are not executed and recorded as NA
+NA == -99
+InR(p, n) == IF p \in 0..n THEN p ELSE NA
+NavI(x) == x.m \div 16
+NavK(x) == (x.m % 16) - 8
 
 \* the predicate an operation applies to single elements of a
 Sat(op, x, e) ==
@@ -309,6 +318,31 @@ Post(op, x, o) ==
             /\ FrameA(x, o) /\ Perm(o.oa, a) /\ r = <<>>
             /\ \A i \in 1..m : \A j \in (m + 1)..n : ~Lt(c, o.oa[j], o.oa[i])
             /\ \A j \in (m + 2)..n : ~Lt(c, o.oa[j], o.oa[m + 1])
+      \* ---- iterator adaptors -----------------------------------------------------------------
+      [] op = "rit_cmp" ->
+            \* [reverse.iter.cmp] x == y iff x.current == y.current, x < y iff x.current > y.current, ...
+            \* [reverse.iter.nonmember] x - y = y.current - x.current; base() returns current
+            LET i == m \div 8 j == m % 8 IN
+            Frame(x, o) /\ r = <<B2I(i = j), B2I(i # j), B2I(i > j), B2I(i >= j), B2I(i < j), B2I(i <= j), j - i, i, j>>
+      [] op = "rit_nav" ->
+            \* [reverse.iter.nav] it + n = reverse_iterator(current - n), it - n = (current + n), ++ decrements
+            \* current; [reverse.iter.elem] *it = *prev(current), it[n] = current[-n - 1]
+            \* r = <<it + k, k + it, it += k, it - k, it -= k, it[k], *it, it->, ++it, it++ (result, it), --it, it-- (result, it)>>
+            LET i == NavI(x) k == NavK(x) IN
+            Frame(x, o) /\ r = <<InR(i - k, n), InR(i - k, n), InR(i - k, n), InR(i + k, n), InR(i + k, n),
+                                  IF i - k \in 1..n THEN a[i - k] ELSE NA,
+                                  IF i \in 1..n THEN a[i] ELSE NA, IF i \in 1..n THEN a[i] ELSE NA,
+                                  IF i >= 1 THEN i - 1 ELSE NA, IF i >= 1 THEN i ELSE NA, IF i >= 1 THEN i - 1 ELSE NA,
+                                  IF i < n THEN i + 1 ELSE NA, IF i < n THEN i ELSE NA, IF i < n THEN i + 1 ELSE NA>>
+      [] op \in {"iter_nav", "iter_nav_ra", "iter_nav_fwd"} ->
+            \* [iterator.operations] advance(i, n) increments (or decrements for negative n) i by n;
+            \* next(x, n = 1): advance(x, n); prev(x, n = 1): advance(x, -n); distance: number of increments
+            \* needed to get from first to last (negative only for random access iterators)
+            \* r = <<next(it, k), advance(it, k), prev(it, k), distance(it, it + k), next(it), prev(it)>>
+            LET i == NavI(x) k == NavK(x) back == op # "iter_nav_fwd" neg == op = "iter_nav_ra" IN
+            Frame(x, o) /\ r = <<InR(i + k, n), InR(i + k, n), IF back THEN InR(i - k, n) ELSE NA,
+                                  IF i + k \in 0..n /\ (k >= 0 \/ neg) THEN k ELSE NA,
+                                  IF i < n THEN i + 1 ELSE NA, IF back /\ i > 0 THEN i - 1 ELSE NA>>
       \* ---- <numeric>: elements are plain integers ------------------------------------------
       [] op = "iota" -> FrameA(x, o) /\ o.oa = [i \in 1..n |-> x.v + i - 1] /\ r = <<>>
       [] op = "accumulate" ->
@@ -468,6 +502,25 @@ Ref(op, x) ==
             IF m = 0 THEN InPl(x, a, <<0>>) ELSE IF m >= n THEN InPl(x, a, <<n>>)
             ELSE InPl(x, MovedFrom(Take(a, m)) \o Take(a, n - m), <<m>>)
       [] op \in SortOps \cup StableSortOps \cup {"partial_sort", "nth_element"} -> InPl(x, InsSort(a, c), <<>>)
+      [] op = "rit_cmp" ->
+            \* a reverse iterator with base position i stands at position n - i of the reversed view;
+            \* iterators into one sequence compare like their positions
+            LET pi == n - (m \div 8) pj == n - (m % 8) IN
+            RO(x, <<B2I(pi = pj), B2I(pi # pj), B2I(pi < pj), B2I(pi <= pj), B2I(pi > pj), B2I(pi >= pj), pi - pj, n - pi, n - pj>>)
+      [] op = "rit_nav" ->
+            LET V == RevW(a) q == n - NavI(x) k == NavK(x)
+                At(p) == IF p \in 0..n THEN n - p ELSE NA            \* base of the iterator at view position p
+                El(p) == IF p \in 0..(n - 1) THEN V[p + 1] ELSE NA IN
+            RO(x, <<At(q + k), At(q + k), At(q + k), At(q - k), At(q - k), El(q + k), El(q), El(q),
+                    At(q + 1), IF q < n THEN n - q ELSE NA, At(q + 1), At(q - 1), IF q > 0 THEN n - q ELSE NA, At(q - 1)>>)
+      [] op \in {"iter_nav", "iter_nav_ra", "iter_nav_fwd"} ->
+            LET i == NavI(x) k == NavK(x) back == op # "iter_nav_fwd" neg == op = "iter_nav_ra"
+                Walk1[t \in (-8)..8] == IF t = 0 THEN i ELSE IF t > 0 THEN Walk1[t - 1] + 1 ELSE Walk1[t + 1] - 1
+                Go(t) == IF Walk1[t] \in 0..n THEN Walk1[t] ELSE NA IN
+            RO(x, <<Go(k), Go(k), IF back THEN Go(0 - k) ELSE NA,
+                    IF Go(k) = NA \/ (k < 0 /\ ~neg) THEN NA
+                    ELSE IF k >= 0 THEN Cardinality(i..(i + k - 1)) ELSE 0 - Cardinality((i + k)..(i - 1)),
+                    Go(1), IF back THEN Go(-1) ELSE NA>>)
       [] op = "iota" -> InPl(x, [i \in 1..n |-> x.v + i - 1], <<>>)
       [] op = "accumulate" -> RO(x, <<FoldL(n, x.v, LAMBDA acc, i : IF c = 0 THEN acc + a[i] ELSE OpA(acc, a[i]))>>)
       [] op = "reduce" -> RO(x, <<FoldL(n, x.v, LAMBDA acc, i : IF c = 2 THEN OpS(acc, a[i]) ELSE acc + a[i])>>)
